@@ -658,6 +658,33 @@ func rootCause(err error) string {
 	}
 }
 
+// namesField reports whether an error names the field: the innermost cause
+// of the chain quotes the Go field name (what AliasMangler.Unmangle prints),
+// AND the message a caller actually sees, err.Error(), carries that quoted
+// name somewhere other than in a wrapper's parenthesised `("Name")` (the
+// outer layers quote the names of ENCLOSING fields that way; an enclosing
+// field may well have the same Go name as the leaf).  On the unmodified tree
+// every layer of every source formats its inner error into its own text, so
+// the both-set sentence with the quoted leaf name is always in the message.
+func namesField(err error, name string) bool {
+	q := strconv.Quote(name)
+	if !strings.Contains(rootCause(err), q) {
+		return false
+	}
+	msg := err.Error()
+	for i := 0; ; {
+		j := strings.Index(msg[i:], q)
+		if j < 0 {
+			return false
+		}
+		j += i
+		if j == 0 || msg[j-1] != '(' {
+			return true
+		}
+		i = j + len(q)
+	}
+}
+
 func clip(s string, n int) string {
 	if len(s) > n {
 		return s[:n] + "..."
@@ -830,7 +857,7 @@ func judgeStep(src srcKind) func(Case, bool, dials.Decoder) vrt.Verdict {
 			}
 			named := false
 			for _, f := range ev.both {
-				if strings.Contains(rootCause(gerr), strconv.Quote(f.name)) {
+				if namesField(gerr, f.name) {
 					named = true
 				}
 			}
@@ -953,7 +980,7 @@ func rule(src string) string {
 		"Per aliased field one of neither / primary only / alias only / both (half of the cases exclude 'both'); an aliased struct-typed field duplicates its subtree, 'supplied under a name' = at least one leaf of that copy supplied; other leaves set or unset at random; one scalar value in five is the zero value of its type and one collection value in four is an explicitly empty non-nil collection (NAME=\"\", -name=, [] / {}), which must count as set exactly like any other value (nil vs empty is compared exactly). " +
 		"In the decoder checks one alias-wrapped decoder value is built per case and used for 1..3 decodes in a row (1: 2/5, 2: 2/5, 3: 1/5), each with a different generated config type, its own supplied leaves and its own document, each judged on its own by the same oracle (a wrapper must not carry anything from one config type to the next). " +
 		"Executed against " + src + " with names known by construction (env: PREFIX + UPPER_SNAKE join of words; flags: '-' join of tags / field words; decoders: tag path, documents rendered by the harness; an untagged embedded struct contributes no name element in the flatten sources, JSON and Cue (promotion), the lower-cased type name in YAML and the type name in TOML; with a dials tag it is an ordinary named field; its alias copy is always a named field). " +
-		"Oracle: some field supplied under both names => an error whose text contains the quoted Go name of such a field; otherwise no error and the returned value equals the model leaf by leaf (value under either name lands, neither => nil, nothing else set). " +
+		"Oracle: some field supplied under both names => an error that names such a field: its innermost cause quotes the Go field name and the visible error text carries that quoted name too (not merely the parenthesised names of enclosing fields that the outer layers add), whatever the nesting depth of the field; otherwise no error and the returned value equals the model leaf by leaf (value under either name lands, neither => nil, nothing else set). " +
 		"non-trivial = >=2 aliased field instances at different depths with different patterns; distinct = distinct case JSON"
 }
 
@@ -966,7 +993,7 @@ var assumptions = []string{
 	"untagged fields are addressed by the documented default of each format (Go field name for JSON/Cue/TOML, lower-cased field name for YAML)",
 	"untagged embedded structs: promoted by the flatten manglers and by encoding/json (Cue follows it); yaml.v2 does not inline without a yaml tag option and go-toml v1 does not promote a pointer-typed embedded field, so both address it by its type name (lower-cased for YAML); each checked on the unmodified tree",
 	"inside the elements of a slice of structs nothing is pointerified: 'supplied' means non-zero (non-nil for pointer / slice / map fields), so the generator only writes non-zero values there; either name sets the element field, neither leaves it zero, both non-zero is an error naming the field; arrays of structs are left out (a *[N]T field is not recursed into by any mangler, so alias tags inside array elements are ignored - reported separately)",
-	"'naming the field' = the innermost error of the returned chain (errors.Unwrap to the end) contains the Go field name in quotes, which is what AliasMangler.Unmangle prints; names of enclosing fields quoted by outer wrappers do not count",
+	"'naming the field' = the innermost error of the returned chain (errors.Unwrap to the end) contains the Go field name in quotes, which is what AliasMangler.Unmangle prints, AND the visible message err.Error() contains that quoted name outside a wrapper's parenthesised (\"Name\") form - at every nesting depth; names of enclosing fields quoted by outer wrappers do not count",
 }
 
 func check(t *testing.T, src string) {
